@@ -179,3 +179,23 @@ Proof.
   split; [exact Er|]. unfold remaining in F. rewrite Hid in F. exact F.
 Qed.
 End NodeIter.
+
+(* ------------------------------------------------------------------ huge skip counts *)
+(* a skip count at or beyond the number of items left behaves like any other such count: replacing every count above a
+   bound B >= length l by B does not change what the specification yields (used by the correspondence driver, which
+   must turn a 64-bit skip count into the model's unary number) *)
+Definition clamp_call (B : nat) (cl : ncall) : ncall :=
+  match cl with CNext => CNext | CNth n => CNth (Nat.min n B) end.
+Lemma spec_run_clamp {A} (B : nat) : forall calls (l : list A), (length l <= B)%nat ->
+  spec_run l (map (clamp_call B) calls) = spec_run l calls.
+Proof.
+  induction calls as [|cl r IH]; intros l Hl; [reflexivity|].
+  destruct cl as [|n]; cbn [map clamp_call spec_run].
+  - destruct l as [|x t]; [rewrite IH by (cbn; lia); reflexivity | rewrite IH; [reflexivity | cbn in Hl; lia]].
+  - destruct (Nat.le_gt_cases n B) as [Hn|Hn].
+    + rewrite Nat.min_l by exact Hn.
+      assert (Hs : (length (skipn n l) <= B)%nat) by (rewrite skipn_length; lia).
+      destruct (skipn n l) as [|x t]; [rewrite IH by (cbn; lia); reflexivity | rewrite IH; [reflexivity | cbn in Hs; lia]].
+    + rewrite Nat.min_r by lia.
+      rewrite (skipn_all2 (n := B) l) by lia. rewrite (skipn_all2 (n := n) l) by lia. rewrite IH by (cbn; lia). reflexivity.
+Qed.
